@@ -66,7 +66,18 @@ package main
 //@   ensures[engine-gets-the-resolved-end] ev_called ==> ev_a2.End == pcommon.NewTimestampFromTime(tr_r1)
 //@   ensures[engine-gets-the-resolved-step] ev_called ==> ev_a2.Step == ps_r0
 //@   ensures[engine-gets-the-limit] ev_called ==> ev_a2.Limit == before(ev_called, limit)
+//@   ensures[since-flag-passed-as-given] tr_called ==> same(tr_a3, before(tr_called, *since.Val))
 //@   ensures[errors-surface] (tr_called && tr_r2 != nil) || (ps_called && ps_r1 != nil) || (ev_called && ev_r1 != nil) ==> ret0 != nil
+
+// The -t / -c switches drive the part of the line they are named after.
+//@ func (*renderOptions).Register
+//@   capture b0 = call(set.BoolVarP, 0)
+//@   capture b1 = call(set.BoolVarP, 1)
+//@   capture bc = call(set.BoolVar, 0)
+//@   ensures[both-switches-registered] b0_called && b1_called && ((b0_a1 == "timestamp" && b1_a1 == "container") || (b0_a1 == "container" && b1_a1 == "timestamp"))
+//@   ensures[switch-bound-to-its-own-option] (b0_a1 == "timestamp" ==> b0_a0 == &opts.timestamp) && (b0_a1 == "container" ==> b0_a0 == &opts.container) && (b1_a1 == "timestamp" ==> b1_a0 == &opts.timestamp) && (b1_a1 == "container" ==> b1_a0 == &opts.container)
+//@   ensures[shown-by-default] b0_a3 && b1_a3 && opts.timestamp && opts.container
+//@   ensures[colour-switch] bc_called && bc_a1 == "color" && bc_a0 == &opts.color
 
 //@ scope color.go
 
